@@ -57,6 +57,10 @@ def gen_params(rnd, name, box, opts=None):
             j = rnd.randrange(m)
             lows[j] = 0
             ups[j] = 0
+        if not zero and rnd.random() < 0.04:
+            # contradictory but legal parameters: a lower bound above its (positive) capacity - the relation is unsatisfiable
+            j = rnd.randrange(m)
+            lows[j] = ups[j] + rnd.randint(1, 2)
         return [v0] + lows + ups
     if name == "relation":
         t = rnd.randint(1, 5)
